@@ -1,6 +1,9 @@
 """Driver for C15 part B: runs a generated project with per-thread fixtures through the real runner on N threads.
-stdin: JSON spec {nb_threads, fixtures:[{name,scope,generator}], suites:[{name,tests:[{name,uses}]}], td_raise:[fixture], barrier?}
-stdout (last line): JSON {"events": [...], "report_failures": [...]}"""
+stdin: JSON spec {nb_threads, fixtures:[{name,scope,generator}], suites:[{name,tests:[{name,uses}]}], td_raise, barrier?}
+  td_raise: which teardown parts (code after the yield) of a generator fixture raise: a list of fixture names (= mode "first")
+  or {fixture: mode}; mode "first" = the first teardown of that fixture that is executed, "all" = every one, "odd" = every
+  second one (the 2nd, 4th, ...), "second" = the second one only.  The exception text names the value.
+stdout (last line): JSON {"events": [...], "report_failures": [...], "error_logs": [every error log message of the report]}"""
 import json
 import os
 import shutil
@@ -25,9 +28,9 @@ def build_source(spec):
             out.append("    yield v")
             out.append("    EV.append(['teardown', %r, TH(), id(v)])" % f["name"])
             if f["name"] in spec.get("td_raise", []):
-                out.append("    if FIRST_TD(%r):" % f["name"])
-                out.append("        EV.append(['teardown_raise', %r])" % f["name"])
-                out.append("        raise Exception('teardown of %s fails')" % f["name"])
+                out.append("    if TD_RAISES(%r):" % f["name"])
+                out.append("        EV.append(['teardown_raise', %r, TH(), id(v)])" % f["name"])
+                out.append("        raise Exception('teardown of %s fails for value <%%d>' %% id(v))" % f["name"])
         else:
             out.append("    return v")
         out.append("")
@@ -67,18 +70,20 @@ def main():
             barrier.wait()
         except threading.BrokenBarrierError:
             pass
-    first = {}
+    td_raise = spec.get("td_raise") or {}
+    modes = td_raise if isinstance(td_raise, dict) else {name: "first" for name in td_raise}
+    td_count = {}
 
-    def first_td(name):
+    def td_raises(name):
         with lock:
-            if name in first:
-                return False
-            first[name] = True
-            return True
+            k = td_count.get(name, 0)
+            td_count[name] = k + 1
+        mode = modes.get(name)
+        return {"first": k == 0, "all": True, "odd": k % 2 == 1, "second": k == 1}.get(mode, False)
 
     class Val(object):
         pass
-    ns = {"EV": events, "KEEP": keep, "TH": th, "Val": Val, "WAVE": wave, "FIRST_TD": first_td}
+    ns = {"EV": events, "KEEP": keep, "TH": th, "Val": Val, "WAVE": wave, "TD_RAISES": td_raises}
     exec(compile(build_source(spec), "<c15 project>", "exec"), ns)
     classes = [ns[s["name"]] for s in spec["suites"]]
     fixtures = [ns[f["name"]] for f in spec["fixtures"]]
@@ -95,7 +100,12 @@ def main():
         for test in suite.get_tests():
             if test.status != "passed":
                 failures.append([test.name, test.status])
-    print(json.dumps({"events": events, "report_failures": failures}))
+    error_logs = []
+    for step in report.all_steps():
+        for log in step.get_logs():
+            if getattr(log, "level", None) == "error":
+                error_logs.append(log.message)
+    print(json.dumps({"events": events, "report_failures": failures, "error_logs": error_logs}))
 
 
 main()
